@@ -389,7 +389,7 @@ class Oracle(object):
         if op["op"] == "set_threshold":
           ref.set_threshold(live["value"])
         else:
-          D, pairs, y, via = m.calib_data(h, op)
+          D, pairs, y, via = m.calib_data(h, live.get("op_eff", op))
           if via == "indices":
             pairs = D.S[pairs]
           ref.calibrate_threshold(pairs, y, **live["cp"])
